@@ -380,8 +380,10 @@ theorem C12_export_times (dts : List Int) (hinc : Inc dts) (ref : Int) (ts : Lis
         simp
   · cases hts
 
-/-- candidate finding C12-N2 (witness): with t0 on the second of three import stamps the NetCDF
-    axis runs one stamp past the end of the import series, while CSV/PI export the stamps from t0 -/
+/-- why `C12_export_times` needs "t0 is the first import stamp" for the NetCDF writer (a
+    precondition that `NetCDFMixin.read` establishes itself): with the reference moved to the second
+    of three import stamps the NetCDF axis would run one stamp past the end of the import series,
+    while CSV/PI export the stamps from t0 -/
 theorem C12_export_netcdf_moved_reference_witness :
     ncExportStamps [0, 3600, 7200] 3600 = [3600, 7200, 10800] ∧
     (timesSec [0, 3600, 7200] 3600).map (exportStamps 3600) = some [3600, 7200] := by
